@@ -1,5 +1,5 @@
 /-
-  C06 — AcordIntersection::execute (lib/gnu_gama/local/acord/acordintersection.cpp, after fix 78a600d) and the
+  C06 — AcordIntersection::execute (lib/gnu_gama/local/acord/acordintersection.cpp, after fixes 78a600d, 863dd00) and the
   machinery it drives: ApproximateCoordinates (median/g2d_coordinates.cpp: `calculation()`,
   `find_missing_coordinates`, `solvable_data`, `necessary_observations`, `computational_loop`,
   `solve_intersection`), ApproxPoint (median/g2d_point.{h,cpp}: `reset`, `makeBearing`, `makeAngle`,
@@ -32,7 +32,8 @@ inductive HObs (ι K : Type) where
   | distance (f t : ι) (v : K)
   | angle (f bs fs : ι) (v : K)
   | azimuth (f t : ι) (v : K)
-  | sdistance (f t : ι) (v : K)
+  /-- `S_Distance` with `from_dh()`, `to_dh()` (instrument / target height above the marks) -/
+  | sdistance (f t : ι) (v fdh tdh : K)
   | zangle (f t : ι) (v : K)
 
 /-- a cluster: orientation state (stand-points) and observation list -/
@@ -49,11 +50,11 @@ variable {K : Type} {ι : Type}
 
 def HObs.from' : HObs ι K → ι
   | .direction f _ _ => f | .distance f _ _ => f | .angle f _ _ _ => f
-  | .azimuth f _ _ => f | .sdistance f _ _ => f | .zangle f _ _ => f
+  | .azimuth f _ _ => f | .sdistance f _ _ _ _ => f | .zangle f _ _ => f
 /-- `to()` (= `bs()` of an angle) -/
 def HObs.to' : HObs ι K → ι
   | .direction _ t _ => t | .distance _ t _ => t | .angle _ bs _ _ => bs
-  | .azimuth _ t _ => t | .sdistance _ t _ => t | .zangle _ t _ => t
+  | .azimuth _ t _ => t | .sdistance _ t _ _ _ => t | .zangle _ t _ => t
 
 /-- `copy_horizontal`: Direction, Angle, Distance -/
 def HObs.isHoriz : HObs ι K → Bool
@@ -395,14 +396,15 @@ def tempObs (pd : PD ι K) (cl : List (HObs ι K)) : HObs ι K → List (HObs ι
     if (pd f).bxy then [.direction f t v]
     else if (pd t).bxy then [.direction t f (normRad (v + pi))]
     else []
-  | .sdistance f t v =>
+  | .sdistance f t v fdh tdh =>
     -- every zenith angle of the same sight fakes a horizontal distance (the `continue` is the inner loop's) …
     (cl.filterMap (fun z => match z with
       | .zangle f' t' zv => if f = f' ∧ t = t' then some (HObs.distance f t (v * abs (sin zv))) else none
       | _ => none)) ++
-    -- … and, heights permitting, the slope distance is reduced once more
+    -- … and, heights permitting, the slope distance is reduced once more (fix 863dd00: the line of sight runs from
+    -- the instrument to the target, `from_dh` / `to_dh` above the marks)
     (if (pd f).bz && (pd t).bz then
-      let dz := (pd f).z - (pd t).z
+      let dz := ((pd f).z + fdh) - ((pd t).z + tdh)
       let dz := dz * dz
       let ds := v * v
       if dz < ds then [.distance f t (sqrt (ds - dz))] else []
